@@ -36,6 +36,25 @@ W_DUP = {'steps': [P(['def', 'P!', ['X', 'X!'], ['cat', sv('X!'), ['num', 0, '%'
                    P(['let', sv('R!'), sv('X!')]), P(['let', sv('B$'), sv('A$')])]}
 
 
+# the default type of a sigil-less parameter is looked up when the call is made: DEFINT etc. between two calls
+def deftype_case(rng=None, kinds=('INT', 'DBL', 'STR', 'SNG'), rng_range=('X', 'X')):
+    steps = [P(['def', 'P!', ['X', 'Y%'], ['cat', ['num', 1, '%'], ['len', sv('A$')]]]),
+             P(['def', 'A$', ['Y$', 'X'], cat(sv('Y$'), lit('-'))]),
+             P(['let', sv('X!'), ['num', 11, '%']]), P(['let', sv('X%'), ['num', 12, '%']]),
+             P(['let', sv('X#'), ['num', 13, '%']]), P(['let', sv('X$'), lit('gx')]), P(['let', sv('Y$'), lit('gy')]),
+             P(['let', sv('Q!'), fn('P!', ['num', 5, '%'], ['num', 6, '%'])]),
+             P(['let', sv('C$'), fn('A$', lit('p'), ['num', 7, '%'])])]
+    for k in kinds:
+        steps.append(P(['deftype', k, rng_range[0], rng_range[1]]))
+        steps.append(P(['let', sv('Q!'), fn('P!', ['num', 5, '%'] if k != 'STR' else lit('s'), ['num', 6, '%'])]))
+        steps.append(P(['let', sv('C$'), fn('A$', lit('p'), lit('t') if k == 'STR' else ['num', 7, '%'])]))
+        steps.append(P(['let', sv('R!'), fn('P!', lit('wrong') if k != 'STR' else ['num', 1, '%'], ['num', 6, '%'])]))
+    return {'steps': steps}
+
+
+W_DEFT = deftype_case()
+
+
 class C20(C10):
     ID = 'C20'
     PROPS = 'props/C20.v'
@@ -52,7 +71,7 @@ class C20(C10):
                'tested by correspondence and the oracle, not proved')
 
     def corpus(self):
-        return [dict(w) for w in (W_D15, W_D20A, W_D20B, W_ARGERR, W_RECURSION, W_D10D_ALIAS, W_DUP)] + [
+        return [dict(w) for w in (W_D15, W_D20A, W_D20B, W_ARGERR, W_RECURSION, W_D10D_ALIAS, W_DUP, W_DEFT)] + [
             {'steps': [P(['def', 'A$', [], lit('k')]), P(['let', sv('A$'), fn('A$')])]},
             {'steps': [D(['clear', 60]), P(['def', 'B$', ['X$', 'Y$', 'X!', 'Y%'], cat(sv('X$'), sv('Y$'))]),
                        P(['let', sv('A$'), fn('B$', lit('abc'), lit('def'), ['num', 1, '%'], ['num', 2, '%'])]),
@@ -64,6 +83,10 @@ class C20(C10):
         out = []
         hist = {}
         for i in range(n):
+            if i % 8 == 7:
+                ks = [rng.choice(['INT', 'SNG', 'DBL', 'STR']) for _ in range(rng.choice([1, 2, 3]))]
+                out.append(deftype_case(kinds=ks, rng_range=rng.choice([('X', 'X'), ('W', 'Z'), ('A', 'Z')])))
+                continue
             ns = rng.choice([5, 10, 20, 30, 60, 120] if rng.random() < 0.1 else [5, 10, 20, 30])
             out.append(L.gen_history(rng, ns, fnw=0.55, big=0.1, nfs=(1, 2, 2, 3, 4),
                                      mems=(None, None, None, 30, 60, 100, 150, 250, 400, 2000)))
